@@ -1310,8 +1310,10 @@ f_functions (void)
 
       if (flag)
         {
-          if (prog->type_start && prog->type_start[index] != INDEX_START_NONE)
-            types = &prog->argument_types[prog->type_start[index]];
+          /* type_start runs parallel to function_table (one entry per
+           * function defined in prog), not to the runtime function index */
+          if (prog->type_start && prog->type_start[func_entry->def.f_index] != INDEX_START_NONE)
+            types = &prog->argument_types[prog->type_start[func_entry->def.f_index]];
           else
             types = 0;
 
